@@ -24,8 +24,8 @@ type ethAd struct {
 	dts     []uint64 // timestamp delta per colour
 }
 
-func (a *ethAd) name() string      { return "eth" }
-func (a *ethAd) chainID() uint64   { return ethChainID }
+func (a *ethAd) name() string       { return "eth" }
+func (a *ethAd) chainID() uint64    { return ethChainID }
 func (a *ethAd) rootHeight() uint64 { return a.genesis }
 
 func londonHeight() uint64 { return config.GetEth1559Height(config.DefConfig.P2PNode.NetworkId) }
